@@ -371,19 +371,15 @@ def table_case(ctx, impls, spec, route, n, axis, mode, seed, tags=()):
         res, lay, rng, r, calls, kargs = call_subsample(t, mods, n, axis, mode, seed)
         after = view(t, axis)
         tg = list(tags) + [name, "table", mode, "axis=" + axis, "route=" + route]
-        if mode == "with":
-            tg.append("with_replacement")
-        if mode == "with" and any(x == 0 for x in totals_axis):
-            tg.append("empty-vector-on-axis")
         if "error" in res:
-            tg.append({"Value": "ValueError"}.get(res["error"], res["error"]))
+            tg.append("raised:" + res["error"])
         req = {"op": "table", "t": before, "n": n, "mode": mode, "rng": rng, "lay": lay or [],
                "obs": {"result": res, "after": after}}
         full = dict(case, impl=name, request=req)
         resp = ctx.driver.ask(req)
         if core.table_obs(t) != before_full:
             ctx.fail(full, "input-unchanged", tg, detail="ids/metadata/type of the input differ after the call")
-        if not resp["model_holds"] and resp["pre"] and not (mode == "with" and "empty-vector-on-axis" in tg):
+        if not resp["model_holds"] and resp["pre"]:
             ctx.diverge(full, "theorem model_holds contradicted by the driver", tg)
         if not resp["holds"]:
             ctx.fail(full, resp["clause"], tg, detail={"model": resp["model"]})
@@ -398,6 +394,12 @@ def table_case(ctx, impls, spec, route, n, axis, mode, seed, tags=()):
             want_fmt = "csr" if axis == "observation" else "csc"
             if kargs != (n, mode == "with", want_fmt):
                 ctx.diverge(full, "kernel call arguments", tg, detail={"args": kargs})
+        if mode == "with" and "ok" in res:
+            want_m = [("multinomial", n) for x in totals_axis if x > 0]
+            got_m = [(c[0], c[1]) for c in calls]
+            if got_m != want_m or (lay is not None and len(lay) != len(want_m)):
+                ctx.diverge(full, "rng.multinomial call sequence / vectors reaching the kernel", tg,
+                            detail={"calls": got_m, "want": want_m, "lay": lay})
         if mode == "without" and "ok" in res:
             want = [("choice", x, n, False) for x in totals_axis if x >= n]
             if calls != want:
@@ -465,6 +467,14 @@ def pick_n(rng, spec, axis, mode):
 
 
 CORPUS = [
+    # the repaired defect a04b6ea1: with replacement and a vector without any count on the axis used to raise
+    # ValueError; it must return the table with the all-zero vector dropped
+    ({"obs": ["a", "b"], "samp": ["x", "y"], "rows": [[0, 1], [0, 2.0]],
+      "omd": None, "smd": None, "type": None}, "dense", 2, "sample", "with", 0),
+    ({"obs": ["a", "b", "c"], "samp": ["x", "y"], "rows": [[0, 0], [0, 2.0], [3.0, 0]],
+      "omd": None, "smd": None, "type": None}, "csr", 4, "observation", "with", 5),
+    ({"obs": ["a", "b"], "samp": ["x", "y"], "rows": [[0, 0], [0, 0.0]],
+      "omd": None, "smd": None, "type": None}, "dense", 3, "sample", "with", 1),
     # the repaired defect d07fd8da: 4x3, n = 3 along observations (observation sums must be 3)
     ({"obs": list("abcd"), "samp": list("xyz"), "rows": [[1, 2, 0], [2, 1, 3], [3, 3, 4], [0, 2, 1.0]],
       "omd": None, "smd": None, "type": None}, "dense", 3, "observation", "without", 1),
@@ -477,9 +487,6 @@ CORPUS = [
       "omd": None, "smd": None, "type": None}, "dense", 2, "sample", "without", 0),
     ({"obs": ["O1", "O2"], "samp": ["S1", "S2", "S3"], "rows": [[0, 2, 3], [1, 0, 2.0]],
       "omd": None, "smd": None, "type": None}, "dense", 2, "sample", "byid", 0),
-    # with replacement and a vector without any count on the axis
-    ({"obs": ["a", "b"], "samp": ["x", "y"], "rows": [[0, 1], [0, 2.0]],
-      "omd": None, "smd": None, "type": None}, "dense", 2, "sample", "with", 0),
     ({"obs": ["a", "b"], "samp": ["x", "y"], "rows": [[0, 1], [0, 2.0]],
       "omd": None, "smd": None, "type": None}, "dense", 2, "observation", "with", 0),
     # nothing reaches n; by ID with only empty vectors drawn
@@ -535,8 +542,8 @@ def run(ctx):
         spec = gen_count_spec(rng, 6, 6) if ctx.quick() or rng.random() < 0.7 else gen_count_spec(rng, 12, 12)
         axis = rng.choice(["sample", "observation"])
         mode = rng.choice(["without", "without", "without", "with", "byid"])
-        if mode == "with" and rng.random() < 0.7:
-            # mostly tables without an all-zero vector on the axis
+        if mode == "with" and rng.random() < 0.4:
+            # some tables without any all-zero vector on the axis
             rows = spec["rows"]
             for i_ in range(len(rows)):
                 for j_ in range(len(rows[0])):
